@@ -1,5 +1,4 @@
-"""Translator for the position stamping of the OAL parser (property C13): lean/Gen/OalTrack.lean.
-
+"""Translator for the position stamping of the OAL parser: lean/Gen/OalTrack.lean.:
 Reads bridgepoint/oal.py with `ast` (never imports it):
 
   every `p_*` production function of OALParser, in source order: the productions of its docstring (PLY grammar
